@@ -337,7 +337,7 @@ def faults(o):
         ("iadd_array", iop("+", arr), True),
         ("iadd_str", iop("+", "abc"), True),
         ("iadd_none", iop("+", None), True),
-        ("isub_larger", iop("-", lambda: larger_hist(o)), True),
+        ("isub_larger", iop("-", lambda: larger_hist(o)), n0 > 0),
         ("isub_other_bins", iop("-", lambda: other_bins_hist(o)), True),
         ("isub_array", iop("-", arr), True),
         ("imul_negative", iop("*", -1), some),
